@@ -1,6 +1,6 @@
 /* C18 fault injection (see faultinj.h).  Every reference to malloc / calloc /
  * realloc / aligned_alloc / posix_memalign / free / eventfd / epoll_create /
- * epoll_create1 / pipe / pipe2 / socket / close in the objects linked into the
+ * epoll_create1 / pipe / pipe2 / socket / accept / accept4 / close in the objects linked into the
  * driver (the repository's .c files and the driver itself) is redirected here
  * by the linker; __real_X is the sanitizer's / libc's X. */
 #include "faultinj.h"
@@ -23,6 +23,8 @@ int __real_pipe(int[2]);
 int __real_pipe2(int[2], int);
 int __real_socket(int, int, int);
 int __real_close(int);
+int __real_accept(int, void *, void *);
+int __real_accept4(int, void *, void *, int);
 
 #define TAB_BITS 14
 #define TAB_SIZE (1u << TAB_BITS)
@@ -184,6 +186,10 @@ int __wrap_pipe2(int fds[2], int fl)
 	if (r == 0) { got_fd(fds[0]); got_fd(fds[1]); }
 	return r;
 }
+/* accept / accept4: the descriptor is tracked, the call is never failed and not counted
+ * (not in the property's fault class) - a leaked accepted descriptor still shows up */
+int __wrap_accept(int fd, void *a, void *l) { return got_fd(__real_accept(fd, a, l)); }
+int __wrap_accept4(int fd, void *a, void *l, int fl) { return got_fd(__real_accept4(fd, a, l, fl)); }
 int __wrap_close(int fd)
 {
 	if (fd >= 0 && fd < MAX_FD) { lock(); if (g_fd[fd]) { g_fd[fd] = 0; g_nfds--; } unlock(); }
